@@ -38,7 +38,7 @@ def generate_chain(rng):
     """Chain of templates, each holding an instantiation of the previous one with its own parameter (by value or by pointer);
     whether the top's parameter is used depends on a fact that has to travel the whole chain."""
     g = Graph("cxx")
-    depth = rng.randint(2, 4)
+    depth = rng.randint(2, 5)
     base_use = rng.choice(["value", "pointer", "unused", "array"])
     prev = None
     for i in range(depth):
@@ -118,7 +118,7 @@ def generate(rng, n=None, lang="cxx"):
         earlier = [x for x in g.nodes if x.kind == "class"]
         # bases
         if lang == "cxx" and earlier and rng.random() < 0.35:
-            for b in rng.sample(earlier, rng.choice([1, 1, 2]) if len(earlier) > 1 else 1):
+            for b in rng.sample(earlier, min(len(earlier), rng.choice([1, 1, 2, 2, 3, 4])) if len(earlier) > 1 else 1):
                 if b.name not in node.bases:
                     node.bases.append(b.name)
                     node.needs_complete.add(b.name)
@@ -308,3 +308,44 @@ def generate_nested(rng):
         else:
             out.append("%s fn%d(%s *a, %s b);" % (rng.choice(["void", "int"]), i, expr([], 2), expr([], 2)))
     return "\n".join(out) + "\n"
+
+
+def generate_mi(rng):
+    """multiple inheritance from plain bases of different alignments (incl. empty ones), derived classes adding members / bit-fields / virtuals,
+    and a second level deriving from several of those"""
+    g = Graph("cxx")
+    scal = ["char", "short", "int", "long long", "double", "float", "bool", "unsigned long"]
+    nb = rng.randint(3, 6)
+    for i in range(nb):
+        b = Node("C%d" % i, "class")
+        r = rng.random()
+        if r < 0.2:
+            pass                                    # empty base
+        else:
+            for j in range(rng.randint(1, 3)):
+                t = rng.choice(scal)
+                b.members.append("%s b%d_%d%s;" % (t, i, j, rng.choice(["", "", "[3]"])))
+        if rng.random() < 0.15:
+            b.members.append("virtual void vb%d();" % i)
+            b.attrs["virtual"] = True
+        g.nodes.append(b)
+    nd = rng.randint(1, 3)
+    for k in range(nd):
+        d = Node("C%d" % (nb + k), "class")
+        pool = [x for x in g.nodes if x.kind == "class"]
+        for b in rng.sample(pool, min(len(pool), rng.randint(2, 4))):
+            d.bases.append(b.name)
+            d.needs_complete.add(b.name)
+        first = rng.random()
+        if first < 0.4:
+            d.members.append("unsigned bf%d_a : %d;" % (k, rng.randint(1, 20)))
+            d.members.append("unsigned bf%d_b : %d;" % (k, rng.randint(1, 12)))
+        for j in range(rng.randint(1, 3)):
+            d.members.append("%s d%d_%d;" % (rng.choice(scal), k, j))
+        if rng.random() < 0.3:
+            d.members.append("unsigned long long wide%d : %d;" % (k, rng.randint(33, 60)))
+        if rng.random() < 0.2:
+            d.members.append("virtual void vd%d();" % k)
+            d.attrs["virtual"] = True
+        g.nodes.append(d)
+    return g
